@@ -34,6 +34,9 @@ type st = { rng : Rng.t; mutable next : int; level : int; mutable fuelv : int;
             mutable limit : int;            (* cost limit of the body under construction *)
             mutable clf : int }             (* closures still to be created (level 4) *)
 
+(* level 7 = level 4 + one-dimensional int arrays *)
+let l4 st = st.level = 4 || st.level = 7
+
 let ei k = EInt (z_of_int k)
 let ev v = EVar (n_of_int v.n)
 
@@ -62,6 +65,7 @@ let rec kind env e =
       | Some v -> if v.var then KV else KC | None -> KC)
   | EBlock items -> kind_items env items
   | EAssign (_, r) -> kind env r
+  | EIndex (a, _) -> kind env a
   | EWhile _ | EDoWhile _ | EPrint _ | ECall _ -> KC
   | _ -> KT
 and kind_items env = function
@@ -74,13 +78,13 @@ and kind_items env = function
 
 (* level 4: the right-hand side of an assignment is int_shaped (Src/Compile4.v) *)
 let shape st e =
-  if st.level <> 4 || int_shaped e then e
+  if not (l4 st) || int_shaped e then e
   else match e with
-    | EVar _ | ECall _ | ECond _ | EBlock _ -> EBin (Add, e, EInt Z0)
+    | EVar _ | ECall _ | ECond _ | EBlock _ | EIndex _ -> EBin (Add, e, EInt Z0)
     | _ -> e
 
 let shape_bool st e =
-  if st.level <> 4 || int_shaped e then e else ENot (ENot e)
+  if not (l4 st) || int_shaped e then e else ENot (ENot e)
 
 let is_fun_ty = function TFun _ -> true | _ -> false
 
@@ -99,6 +103,20 @@ let t_hof = TFun ([t_ii; TInt], TInt)
 let t_mk = TFun ([TInt], t_ii)
 let t_mk2 = TFun ([t_ii], t_ii)
 let t_u = TFun ([], TInt)
+
+let arrs_of (env : vi list) = List.filter (fun (v : vi) -> v.t = TArr TInt) env
+
+(* an index of array v: mostly a literal in bounds, sometimes 0/1 computed, rarely out of bounds *)
+let gen_index st (v : vi) (env : vi list) : expr =
+  let n = v.cost in
+  let vs = vars_of env TInt in
+  match Rng.int st.rng 20 with
+  | 0 -> ei n
+  | 1 -> ei (-1)
+  | 2 | 3 | 4 when vs <> [] -> EBin (BAnd, ev (Rng.pick st.rng vs), ei (if n >= 2 then 1 else 0))
+  | _ -> ei (Rng.int st.rng n)
+
+let inb_index st (v : vi) = ei (Rng.int st.rng v.cost)
 
 let rec gen_int st env d : expr =
   let vs = vars_of env TInt in
@@ -133,11 +151,16 @@ let rec gen_int st env d : expr =
       (if List.exists (fun v -> v.var) vs then 6 else 0), (fun () ->
           let v = Rng.pick st.rng (List.filter (fun v -> v.var) vs) in EAssign (ev v, shape st (sub ())));
       (if st.level >= 2 then 4 else 0), (fun () -> EPrint (sub ()));
+      (if st.level = 7 && arrs_of env <> [] then 22 else 0), (fun () ->
+          let v = Rng.pick st.rng (arrs_of env) in EIndex (ev v, gen_index st v env));
+      (if st.level = 7 && List.exists (fun v -> v.var) (arrs_of env) then 7 else 0), (fun () ->
+          let v = Rng.pick st.rng (List.filter (fun v -> v.var) (arrs_of env)) in
+          EAssign (EIndex (ev v, inb_index st v), shape st (sub ())));
       (if st.level >= 2 && d >= 2 && st.fuelv > 0 then 5 else 0), (fun () -> gen_loop st env (d - 1));
       (if callable st <> [] then 16 else 0), (fun () -> gen_call st env (d - 1));
-      (if st.level = 4 && fcands st env TInt <> [] then 24 else 0), (fun () -> gen_fcall st env (d - 1) TInt);
-      (if st.level = 4 && st.clf > 0 then 9 else 0), (fun () -> EBlock (gen_funblock st env (d - 1) TInt));
-      (if st.level = 4 && st.clf > 0 then 3 else 0), (fun () -> gen_lamcall st env (d - 1) TInt);
+      (if l4 st && fcands st env TInt <> [] then 24 else 0), (fun () -> gen_fcall st env (d - 1) TInt);
+      (if l4 st && st.clf > 0 then 9 else 0), (fun () -> EBlock (gen_funblock st env (d - 1) TInt));
+      (if l4 st && st.clf > 0 then 3 else 0), (fun () -> gen_lamcall st env (d - 1) TInt);
     ] ()
 
 (* a call of a function defined so far: arguments are int expressions (sometimes printing, which
@@ -434,7 +457,7 @@ and gen_block st env t d n : item list =
       let name () =
         let cands = List.filter (fun x -> not (List.mem x bound)
                                           && List.exists (fun v -> v.n = x && v.t = bt && not v.ctr) env) outer in
-        if st.level <> 4 && cands <> [] && Rng.pct st.rng 12 then Rng.pick st.rng cands else fresh st in
+        if not (l4 st) && cands <> [] && Rng.pct st.rng 12 then Rng.pick st.rng cands else fresh st in
       Rng.weighted st.rng [
         30, (fun () ->
             let e = gen_ty st env d bt in
@@ -453,7 +476,17 @@ and gen_block st env t d n : item list =
               else gen_ty st env d (if Rng.pct st.rng 20 then TBool else TInt) in
             IExpr e :: go env bound (i + 1));
         (if st.level >= 2 then 8 else 0), (fun () -> IExpr (EPrint (gen_int st env d)) :: go env bound (i + 1));
-        (if st.level = 4 && (st.clf > 0 || List.exists (fun v -> is_fun_ty v.t) env) then 12 else 0), (fun () ->
+        (if st.level = 7 then 16 else 0), (fun () ->
+            let n = Rng.range st.rng 1 4 in
+            let es = List.init n (fun _ -> shape st (gen_int st env (min d 1))) in
+            let x = fresh st in
+            let isvar = Rng.pct st.rng 70 in
+            let it = if isvar then IVar (n_of_int x, EArrLit (es, TInt)) else ILet (n_of_int x, EArrLit (es, TInt)) in
+            it :: go ({ n = x; t = TArr TInt; var = isvar; ctr = false; cost = n } :: env) (x :: bound) (i + 1));
+        (if st.level = 7 && List.exists (fun v -> v.var) (arrs_of env) then 10 else 0), (fun () ->
+            let v = Rng.pick st.rng (List.filter (fun v -> v.var) (arrs_of env)) in
+            IExpr (EAssign (EIndex (ev v, gen_index st v env), shape st (gen_int st env d))) :: go env bound (i + 1));
+        (if l4 st && (st.clf > 0 || List.exists (fun v -> is_fun_ty v.t) env) then 12 else 0), (fun () ->
             let ft = Rng.weighted st.rng [50, t_ii; 20, t_iii; 10, t_u; 10, t_mk; 10, t_hof] in
             let e = gen_fun_value st env d ft in
             let x = fresh st in
@@ -496,7 +529,7 @@ let env_of params = List.rev_map (fun (x, v) -> { n = x; t = TInt; var = v; ctr 
    (the only fault of the fragment), some another exception (never matches: the next clause / the
    caller gets the fault), some clause bodies fault themselves *)
 let gen_catches st params : (exn * item list) list * item list option =
-  if st.level < 4 || not (Rng.pct st.rng (if st.level = 4 then 30 else 55)) then ([], None)
+  if st.level < 4 || not (Rng.pct st.rng (if l4 st then 30 else 55)) then ([], None)
   else begin
     let env = env_of params in
     let saved = st.fuelv in
@@ -504,7 +537,8 @@ let gen_catches st params : (exn * item list) list * item list option =
     let body () = gen_block st env TInt (Rng.range st.rng 1 2) (Rng.range st.rng 0 2) in
     let nnamed = Rng.range st.rng 0 2 in
     let named = List.init nnamed (fun _ ->
-        let ex = Rng.weighted st.rng [70, ExDivision; 10, ExIndexOob; 10, ExNil; 10, ExArrSize] in
+        let ex = Rng.weighted st.rng (if st.level = 7 then [45, ExDivision; 35, ExIndexOob; 10, ExNil; 10, ExArrSize]
+                                      else [70, ExDivision; 10, ExIndexOob; 10, ExNil; 10, ExArrSize]) in
         (ex, body ())) in
     let call = if nnamed = 0 || Rng.pct st.rng 40 then Some (body ()) else None in
     st.fuelv <- saved;
@@ -613,9 +647,9 @@ let gen_program st : program * int =
       let nf = Rng.range st.rng 1 3 in
       List.init nf (fun j ->
           let name = fresh st in
-          st.clf <- (if st.level = 4 then 2 else 0);
+          st.clf <- (if l4 st then 2 else 0);
           let fd, fi =
-            if st.level = 4 && Rng.pct st.rng 55 then gen_plain4 st name
+            if l4 st && Rng.pct st.rng 55 then gen_plain4 st name
             else if j = 0 && Rng.pct st.rng 60 then gen_plain st name
             else Rng.weighted st.rng [35, (fun () -> gen_plain st name); 35, (fun () -> gen_rec st name);
                                       30, (fun () -> gen_tail st name)] () in
@@ -623,6 +657,6 @@ let gen_program st : program * int =
           fd)
     end in
   st.fuelv <- 3;
-  st.clf <- (if st.level = 4 then Rng.range st.rng 2 7 else 0);
+  st.clf <- (if l4 st then Rng.range st.rng 2 7 else 0);
   let mainfd, np = gen_main st in
   ({ p_recs = []; p_funcs = fds @ [mainfd]; p_main = n_of_int 0 }, np)
